@@ -243,6 +243,16 @@ Verdict judgeImpl(const Case& c, bool geo, bool gp) {
           if (knownE) { v.known = "KF-C03-e"; ST.count("vertex_one_unit_outside_input_bbox"); }
           maxPaths = std::max(maxPaths, sol.size());
           for (auto& p : sol) maxVerts = std::max(maxVerts, p.size());
+          if (!open.empty()) {
+            // the overloads that return closed paths only, with open subjects loaded: same structural clauses
+            Clipper64 c3;
+            c3.PreserveCollinear(pc != 0); c3.ReverseSolution(rev != 0);
+            c3.AddSubject(subj); c3.AddClip(clip); c3.AddOpenSubject(open);
+            Paths64 sol3;
+            if (!c3.Execute(ct, fr, sol3)) { v.fail("Execute(closed only) returned false" + cfgStr(ct, fr, pc, rev)); return v; }
+            if (!structural(sol3, allWithOpen, why, !gp, &knownE)) { v.fail("Execute(ct, fr, closed) with open subjects loaded: " + why + cfgStr(ct, fr, pc, rev)); return v; }
+            v.evals++;
+          }
           if (!geo) continue;
           if (!geometric(sol, segs, tau, pc != 0, rev != 0, !gp, why, v)) { v.fail(why + cfgStr(ct, fr, pc, rev)); return v; }
           // (f) idempotence under Union
